@@ -41,7 +41,8 @@ def run(ctx):
     r1 = vlib.tlc_check(ctx.scratch, "HandshakeImpl", "HandshakeImpl_r1.cfg", workers=4)
     r1d = vlib.tlc_check(ctx.scratch, "HandshakeImpl", "HandshakeImpl_defect.cfg", workers=1, expect_violation="StableAfterOK")
     r1e = vlib.tlc_check(ctx.scratch, "HandshakeImpl", "HandshakeImpl_doubleclose.cfg", workers=1, expect_violation="NoCrash")
-    ctx.log("R1: HandshakeImpl %d distinct states, HandshakeObs invariants hold; sensitivity configs: CEAs not ignored after completion violates StableAfterOK, an unguarded second close of errc violates NoCrash, as they must" % r1["distinct"])
+    r1f = vlib.tlc_check(ctx.scratch, "HandshakeImpl", "HandshakeImpl_noclose.cfg", workers=1, expect_violation="FailClosed")
+    ctx.log("R1: HandshakeImpl %d distinct states, HandshakeObs invariants hold; sensitivity configs: CEAs not ignored after completion violates StableAfterOK, an unguarded second close of errc violates NoCrash, returning a write error without closing violates FailClosed, as they must" % r1["distinct"])
     ind = None
     if not quick and not ctx.replay:
         # unbounded safety of the model: inductive invariant, any retransmission budget
